@@ -284,6 +284,36 @@ SPECS["C17"] = {"run": hist_bin("c17"), "replay": hist_replay("c17"),
 SPECS["C18"] = {"run": hist_bin("c18"), "replay": hist_replay("c18"),
                 "technique": "exhaustive DFS over all operation histories up to a depth bound on the real structures, reference closure compared after every operation",
                 "assumptions": COMMON_ASSUME + ["4 (and 5) elements; histories up to depth 6/7 (TrRelUnionFind), 5/6 (UnionFind)"]}
+def c20_run(prop, tier, seed):
+    build_sched()
+    sizes = ["1", "2", "3"]
+    cons = ["g", "1", "2", "3"]
+    names = ["instances"]
+    for prog in ("tc", "scan", "lat", "init"):
+        for c in cons:
+            for r1 in sizes:
+                for r2 in sizes:
+                    names.append("%s:%s:%s:%s" % (prog, c, r1, r2))
+        # nested pools and (thorough) a third run
+        names += ["%s:2in3:3:1" % prog, "%s:3:2in3:1" % prog, "%s:1:3:2in3" % prog]
+        if tier == "thorough":
+            for c in cons:
+                for r1 in sizes:
+                    for r2 in sizes:
+                        for r3 in sizes:
+                            if r3 != r2:
+                                names.append("%s:%s:%s:%s:%s" % (prog, c, r1, r2, r3))
+    rep = run_sched(prop, "pools", names, tier, seed)
+    rep["extras"] = {"configurations": len(names), "programs": 4,
+                     "executions_per_configuration": "see parts; every configuration runs in a fresh process (process-wide shard count cache)"}
+    return [rep]
+
+
+SPECS["C20"] = {"run": c20_run, "replay": sched_replay("pools"),
+                "technique": "exhaustive enumeration of pool configurations (pool at construction x pool at each run, sizes 1-3, global, nested; one process each) x deviation-bounded exhaustive schedule exploration under vsched; plus concurrently running program instances",
+                "assumptions": COMMON_ASSUME + ["pool sizes 1..3; deviation bound 2 (3 thorough)", "executor shim models rayon's contract, not its stealing heuristics"]}
+
+
 def c19_replay(prop, path, tier, seed):
     r = json.load(open(path))["replay"]
     return sched_replay("idx")(prop, path, tier, seed) if isinstance(r, dict) and "harness" in r else hist_replay("c19")(prop, path, tier, seed)
